@@ -22,14 +22,20 @@ PURE_EXTERNAL_METHODS = {
 MUTATORS = {"append", "extend", "insert", "pop", "remove", "sort", "reverse", "clear", "update", "setdefault", "popitem", "add", "discard", "appendleft", "popleft"}
 
 
-def compute_pure_names(prog: Program) -> set[str]:
-    """Names such that every function of that name in the package is pure:
-    no attribute/subscript store, no mutator-method call, no nonlocal/global
-    write, and calls only to pure names (fixed point)."""
-    by_name: dict[str, list[Func]] = {}
-    for f in prog.all_funcs(scope_only=False):
-        by_name.setdefault(f.name, []).append(f)
-    impure: set[str] = set()
+_pure_cache: dict[int, tuple[set[str], set[str]]] = {}
+
+
+def compute_pure(prog: Program) -> tuple[set[str], set[str]]:
+    """(pure function keys, names all of whose definitions are pure).
+    A function is pure when it has no attribute/subscript store or mutator call
+    on anything but containers created in the same activation, no
+    nonlocal/global write, and every callee (resolved through the call graph)
+    is pure; calls that cannot be resolved must be whitelisted builtins."""
+    if id(prog) in _pure_cache:
+        return _pure_cache[id(prog)]
+    from ..callgraph import callgraph
+
+    cg = callgraph(prog)
 
     def local_impure(f: Func) -> bool:
         for n in walk_own(f.node):
@@ -40,47 +46,57 @@ def compute_pure_names(prog: Program) -> set[str]:
                 for t in tg:
                     for x in ast.walk(t):
                         if isinstance(x, (ast.Attribute, ast.Subscript)) and isinstance(x.ctx, ast.Store):
-                            # stores to self.* inside __init__ are construction
                             if f.name == "__init__":
-                                continue
-                            # element store into a container created in this activation
+                                continue  # construction
                             if isinstance(x, ast.Subscript) and isinstance(x.value, ast.Name) and _fresh_local(f.node, x.value.id):
                                 continue
                             return True
             if isinstance(n, ast.Delete):
                 return True
-            if isinstance(n, ast.Call) and isinstance(n.func, ast.Attribute) and n.func.attr in MUTATORS:
-                # mutation of a local fresh container is still pure from outside;
-                # keep it simple and sound for our use: impure unless receiver is a
-                # local name bound to a display/comprehension in this function
-                recv = n.func.value
-                if isinstance(recv, ast.Name) and _fresh_local(f.node, recv.id):
-                    continue
-                return True
+            if isinstance(n, ast.Call):
+                if isinstance(n.func, ast.Attribute) and n.func.attr in MUTATORS:
+                    recv = n.func.value
+                    if isinstance(recv, ast.Name) and _fresh_local(f.node, recv.id):
+                        continue
+                    # a package class's own `append` (Fragment.append) is resolved below
+                    if not cg.resolve_call(f, n):
+                        return True
+                cn = _callee_name(n)
+                if cn is None:
+                    return True
+                if not cg.resolve_call(f, n):
+                    ok = cn in PURE_BUILTINS or cn in PURE_EXTERNAL_METHODS or cn[:1].isupper() or cn in ("__class__", "super", "cls")
+                    if not ok:
+                        return True
         return False
 
-    for name, fs in by_name.items():
-        if any(local_impure(f) for f in fs):
-            impure.add(name)
+    impure = {f.key for f in prog.funcs.values() if local_impure(f)}
     changed = True
     while changed:
         changed = False
-        for name, fs in by_name.items():
-            if name in impure:
+        for f in prog.funcs.values():
+            if f.key in impure:
                 continue
-            for f in fs:
-                for n in walk_own(f.node):
-                    if isinstance(n, ast.Call):
-                        cn = _callee_name(n)
-                        if cn is None:
-                            continue
-                        if cn in impure or (cn not in by_name and cn not in PURE_BUILTINS and cn not in PURE_EXTERNAL_METHODS and not cn[:1].isupper()):
-                            impure.add(name)
-                            changed = True
-                            break
-                if name in impure:
+            for n in walk_own(f.node):
+                if isinstance(n, ast.Call) and any(g.key in impure for g in cg.resolve_call(f, n)):
+                    impure.add(f.key)
+                    changed = True
                     break
-    return set(by_name) - impure
+                if isinstance(n, ast.Attribute) and isinstance(n.ctx, ast.Load) and any(g.key in impure for g in cg.resolve_property(f, n)):
+                    impure.add(f.key)
+                    changed = True
+                    break
+    pure_keys = {k for k in prog.funcs if k not in impure}
+    by_name: dict[str, list[Func]] = {}
+    for f in prog.funcs.values():
+        by_name.setdefault(f.name, []).append(f)
+    pure_names = {n for n, fs in by_name.items() if all(f.key in pure_keys for f in fs)}
+    _pure_cache[id(prog)] = (pure_keys, pure_names)
+    return pure_keys, pure_names
+
+
+def compute_pure_names(prog: Program) -> set[str]:
+    return compute_pure(prog)[1]
 
 
 def _is_fresh_expr(d: ast.AST) -> bool:
